@@ -563,6 +563,56 @@ fn paths_for(cfg: &Cfg, ops: &[Op], order: (u64, u64), t: &mut Tally) {
     }
 }
 
+/// the automatic audio clock next to video written with explicit timestamps: encode_audio(data, n)
+/// is write_audio(clock, data) with clock = the running sum of n / rate, whatever the video
+/// track's history (a video track that starts late makes both refuse the early audio alike)
+fn mixed_clock_part(t: &mut Tally) {
+    let mut k = 0u64;
+    for (ac, rate, samples) in [(ACodec::AacLc, 48_000u32, 1024u32), (ACodec::Opus, 48_000, 960), (ACodec::AacLc, 44_100, 1024)] {
+        for v0 in [0.0f64, 0.02, 0.05, 0.5] {
+            for with_dts in [false, true] {
+                for fast in [true, false] {
+                    let mut cfg = Cfg::basic(VCodec::H264, Some(ac), fast);
+                    if let Some(a) = cfg.audio.as_mut() {
+                        a.rate = rate;
+                    }
+                    let vd = Bytes::new(video_frame(VCodec::H264, true, true, 1, 5).0);
+                    let first = if with_dts { Op::WVD { pts: T(v0), dts: T(v0), data: vd, key: true } } else { Op::WV { pts: T(v0), data: vd, key: true } };
+                    let (mut conv, mut expl) = (vec![first.clone()], vec![first]);
+                    let mut clock = 0.0f64;
+                    let mut accepted_clock = 0.0f64;
+                    for j in 0..6u32 {
+                        let ad = Bytes::new(audio_frame(ac, j, 5).0);
+                        conv.push(Op::EA { data: ad.clone(), samples });
+                        // the explicit twin submits the same clock value; a refused call does not
+                        // advance the automatic clock, so the twin repeats the value until accepted
+                        expl.push(Op::WA { pts: T(accepted_clock), data: ad });
+                        if accepted_clock >= v0 {
+                            clock += samples as f64 / rate as f64;
+                            accepted_clock = clock;
+                        }
+                    }
+                    k += 1;
+                    t.evaluations += 1;
+                    let run = |ops: &[Op]| {
+                        let s = RecSink::default();
+                        let st = s.0.clone();
+                        let r = run_on(builder(&cfg, s), ops, &Op::FinishInPlace);
+                        let b = st.borrow().bytes.clone();
+                        (r.iter().map(|x| x.starts_with("Ok")).collect::<Vec<bool>>(), b)
+                    };
+                    let (a, b) = (run(&conv), run(&expl));
+                    t.outcome(oracle::report::h64(&a.1));
+                    if a != b {
+                        let what = if a.0 != b.0 { "results" } else { "bytes" };
+                        t.violation(&format!("C17/path/automatic-audio-clock-vs-explicit/{what}"), (310, k), || format!("{} first video at {v0} s: encode_audio accepts {:?}, write_audio at the same clock values {:?} ({} vs {} bytes)", cfg.short(), a.0, b.0, a.1.len(), b.1.len()), || json!({"engine": "E1-mixed-clock", "cfg": cfg, "first_video": v0}));
+                    }
+                }
+            }
+        }
+    }
+}
+
 /// convenience writes vs explicit timestamps at the same tick values
 fn convenience_part(t: &mut Tally, long: usize) {
     let mut k = 0u64;
@@ -946,6 +996,7 @@ pub fn check(ctx: &Ctx) -> i32 {
     });
     tally.merge(t2);
     convenience_part(&mut tally, if ctx.thorough { 2000 } else { 400 });
+    mixed_clock_part(&mut tally);
     if let Err(e) = clock_part(&mut tally) {
         eprintln!("clock machinery failure: {e}");
         return 2;
